@@ -313,7 +313,23 @@ static void exec_op(World *w, const json &op) {
 			int pub = op.value("pub", 0);
 			VTMF_Card c = w->cards[cid];
 			bool applied = true;
-			if (pub == 0) applied = mutate(m, op.value("pos", 0), mut);
+			if (mut == "forged") {
+				// a share outside the group with an arithmetically valid proof: -(c_1^x) with an even challenge
+				BarnettSmartVTMF_dlog *A = w->pl[from].vt;
+				Mpz d, om, a, b, cc, rr;
+				mpz_powm(d, c.c_1, A->x_i, GP); mpz_sub(d, GP, d);
+				for (int tries = 0; tries < 64; tries++) {
+					mpz_set_ui(om, 1 + rnd(mpz_get_ui(GQ) - 1));
+					mpz_powm(a, c.c_1, om, GP); mpz_powm(b, GG, om, GP);
+					tmcg_mpz_shash(cc, 10, (mpz_srcptr)GP.v, (mpz_srcptr)GQ.v, (mpz_srcptr)GG.v, (mpz_srcptr)A->h, (mpz_srcptr)a.v, (mpz_srcptr)b.v,
+						(mpz_srcptr)d.v, (mpz_srcptr)A->h_i, (mpz_srcptr)c.c_1, (mpz_srcptr)GG.v);
+					if (mpz_even_p(cc.v)) break;
+				}
+				mpz_mul(rr, cc, A->x_i); mpz_sub(rr, om, rr); mpz_mod(rr, rr, GQ);
+				m.clear(); m.push_back(d); m.push_back(Mpz(mpz2s(A->h_i_fp))); m.push_back(cc); m.push_back(rr);
+				hcalls = json::array();
+			}
+			else if (pub == 0) applied = mutate(m, op.value("pos", 0), mut);
 			else { std::vector<Mpz> one(1); one[0] = Mpz(mpz2s(c.c_1)); applied = mutate(one, 0, mut) && one.size() == 1; if (applied) mpz_set(c.c_1, one[0]); }
 			std::stringstream in(print_nums(m)), os;
 			ev["from"] = from; ev["cid"] = cid; ev["card"] = cardn_j(c); ev["msg"] = nums_j(m);
@@ -551,6 +567,7 @@ static json random_schedule(unsigned long seed, long x) {
 		bool drop = rnd(4) == 0;
 		for (size_t j = 0; j < np; j++) if (j != obs) {
 			add({{"op", "PSec"}, {"i", j}, {"card", cur}});
+			if (F.muts > 0 && rnd(3) == 0) add({{"op", "VSec"}, {"i", obs}, {"from", j}, {"card", cur}, {"mut", "forged"}});
 			for (size_t m = 0; m < F.muts; m++) {
 				if (rnd(2) == 0) add({{"op", "VSec"}, {"i", obs}, {"from", j}, {"card", cur}, {"mut", MUTS[1 + rnd(NMUTS - 1)]}, {"pos", rnd(4)}});
 				if (rnd(4) == 0) add({{"op", "VSec"}, {"i", obs}, {"from", j}, {"card", cur}, {"mut", MUTS[1 + rnd(NMUTS - 2)]}, {"pub", 1}});
